@@ -182,8 +182,22 @@ func init() {
 					continue
 				}
 				in := &inputs[i]
-				s := parseDump(in.dump, in.opts)
+				// alternate the way the bytes are delivered: the result must not depend on it, nor on
+				// what an earlier call left behind (e.g. in a pooled reader)
+				var s *stack.Snapshot
+				switch rep % 3 {
+				case 0:
+					s = parseDump(in.dump, in.opts)
+				case 1:
+					s, _, _, _ = scanOnce(newSource([]byte(in.dump), nil, 0, nil, true), discard{}, in.opts)
+				default:
+					s, _, _, _ = scanOnce(newSource([]byte(in.dump+"trailing text\nmore\n"), nil, 0, nil, true), discard{}, in.opts)
+				}
 				if s == nil {
+					if first[i] != "" {
+						res.violation(Finding{Property: "C06", Aspect: "snapshot", What: in.name + ": scanning the same bytes again returned no snapshot (repetition " + fmt.Sprint(rep+1) + ")", Input: []byte(in.dump)})
+						bad[i] = true
+					}
 					continue
 				}
 				out := renderAll(s, rng.Perm(5))
